@@ -145,6 +145,8 @@ def observe (f : F) (xs : List Rat) : Json :=
     ("items_num", polyJ f.num), ("items_den", polyJ f.den),
     ("causal", boolJ (isCausal f)),
     ("hash", ints (hashKey f)),
+    ("linearize", exceptJ (fun g => Json.mkObj [("num", polyJ (sortAsc g.num)), ("den", polyJ (sortAsc g.den))])
+      (linearize f)),
     ("out", sigJ (call f xs))]
 
 def observeS (s : F) (xs : List Rat) : Json :=
